@@ -1,5 +1,8 @@
 import Toq.Proofs.Sep
 import Toq.Proofs.PartialTranspose
+import Toq.Proofs.SepCascade
+import Toq.Proofs.SepExtra
+import Toq.Proofs.SepArgs
 /-!
 # C15 — PPT and separability verdicts are sound
 
@@ -16,6 +19,16 @@ Zhang et al. (`zhang_criterion`, `_svd`, `zhang_products`), and the positive-map
 (`positive_map_criterion`) with the transposition, reduction and Breuer–Hall maps proved positive
 (`transposition_instance`, `reduction_criterion`, `breuer_hall_criterion`) and the Ha–Kye qutrit maps identified
 (`ha_maps_branch`; their positivity is a cited hypothesis).  Each says: no mixture of product states fails the test.
+
+The third part (`## Decision logic`) is about WHAT THE FUNCTIONS DO with the evaluated quantities
+(`Toq/Model/SepCascade.lean`): argument forms of `is_ppt` (`is_ppt_operand_forms`, `is_ppt_decision`), the `dim` block
+(`sep_dim_forms`), the cascade of `is_separable` (`dim1_statement_sound`, `cascade_small_dims_is_ppt`, `cascade_npt_rejected`,
+`cascade_false_only_by_necessary_criteria`, `separable_never_rejected_early`, `cascade_exchange_symmetric`), the index and tolerance arithmetic of its
+branches (`johnston_spectrum_indices`, `rank_one_perturbation_indices`, `zhang_test_arithmetic`, `qubit_blocks_spec`,
+`homothetic_image_spec`, `lemma1_frobenius_dominates`, `ha_parameters_in_region`), the decision logic of
+`has_symmetric_extension` (`symext_shortcuts_accept_separable`, `symext_analytic_arithmetic`,
+`symext_sdp_branch_constant`) and the existence of symmetric PPT extensions of every order for every mixture of
+product states (`separable_has_symmetric_extensions`).
 
 What the correspondence harness uses: the float matrix handed to toqito has an exact dyadic image `X`;
 certificates `(c, L)` and `v` for `pt sys X` are checked by the compiled `checkLamMinLower/Upper`, and
@@ -594,5 +607,384 @@ example : (List.finRange 2).map (fun i => (List.finRange 2).map fun j => ((ptrBE
     = [[0 + 11 + 22, 3 + 14 + 25], [30 + 41 + 52, 33 + 44 + 55]] := by decide +kernel
 
 end Examples2
+
+/-! ## Decision logic: what the functions do with the evaluated quantities (`Toq/Model/SepCascade.lean`) -/
+
+open Toq.PartialOps in
+/-- **Which operator `is_ppt` tests, for every form of `dim`.**  For local dimensions `dA, dB ≥ 1`, `sys ∈ {1, 2}` and an
+`N × N` input with `N = dA·dB`, the call `partial_transpose(mat, [sys − 1], dim)` made by `is_ppt` is accepted for
+`dim = [dA, dB]`, returns an `N × N` array `Y`, and `Y[a·dB + b, a'·dB + b'] = mat[a·dB + b', a'·dB + b]` for `sys = 2`
+(second party transposed), `= mat[a'·dB + b, a·dB + b']` for `sys = 1` (first party) — the entries of `pt sys`
+(`pt_exec_eq_spec`).  The forms `[[dA, dB], [dA, dB]]`, the scalar `dA`, `[dA]`, and the omitted `dim` when `dA = dB`
+(`is_ppt` substitutes `[[s, s], [s, s]]`, `s = round √N`) denote the same call. -/
+theorem is_ppt_operand_forms {α : Type} (X : Nat → Nat → α) (dA dB : Nat) (hA : 0 < dA) (hB : 0 < dB) (sys : Nat)
+    (hs : sys = 1 ∨ sys = 2) :
+    (∃ Y, isPptOperand X (dA * dB) (sys : Int) (.list [dA, dB]) = .ok (dA * dB, dA * dB, Y) ∧
+      ∀ a b a' b', a < dA → b < dB → a' < dA → b' < dB →
+        Y (a * dB + b) (a' * dB + b')
+          = if sys = 1 then X (a' * dB + b) (a * dB + b') else X (a * dB + b') (a' * dB + b)) ∧
+    isPptOperand X (dA * dB) (sys : Int) (.two [dA, dB] [dA, dB]) = isPptOperand X (dA * dB) (sys : Int) (.list [dA, dB]) ∧
+    isPptOperand X (dA * dB) (sys : Int) (.scalar dA) = isPptOperand X (dA * dB) (sys : Int) (.list [dA, dB]) ∧
+    isPptOperand X (dA * dB) (sys : Int) (.list [dA]) = isPptOperand X (dA * dB) (sys : Int) (.list [dA, dB]) ∧
+    (dA = dB → isPptOperand X (dA * dB) (sys : Int) .omitted = isPptOperand X (dA * dB) (sys : Int) (.list [dA, dB])) := by
+  obtain ⟨Y, h1, h2⟩ := isPptOperand_list X dA dB hA hB sys hs
+  obtain ⟨f1, f2, f3, f4⟩ := isPptOperand_forms X dA dB hA hB (sys : Int)
+  exact ⟨⟨Y, h1, fun a b a' b' ha hb ha' hb' => by rw [h2 a b a' b' ha hb ha' hb']; rfl⟩, f1, f2, f3, f4⟩
+
+/-- **The decision of `is_ppt`, and `is_npt` is its negation.**  With `herm` the outcome of the Hermiticity test of the
+partial transpose and `lamMin` its smallest eigenvalue: for a tolerance `tol ≥ 0` (or the default `√ε = 2⁻²⁶` when `tol`
+is omitted) `is_ppt` answers `True` iff the partial transpose is Hermitian and `lamMin ≥ −tol`; `is_npt` answers the
+opposite in every case. -/
+theorem is_ppt_decision (herm : Bool) (lamMin : Rat) (tol : Option Rat) (ht : ∀ t, tol = some t → 0 ≤ t) :
+    (isPptDecide herm lamMin tol = true ↔ herm = true ∧ -(pptTol tol) ≤ lamMin) ∧
+    isNptDecide herm lamMin tol = !isPptDecide herm lamMin tol ∧
+    pptTol none = 1 / 2 ^ 26 := by
+  have hpos : ¬ pptTol tol < 0 := by
+    cases tol with
+    | none => simp [pptTol, sqrtEps]
+    | some t => simpa [pptTol] using ht t rfl
+  refine ⟨?_, rfl, by norm_num [pptTol, sqrtEps]⟩
+  unfold isPptDecide
+  rw [if_neg hpos, Bool.and_eq_true, decide_eq_true_eq]
+
+/-- **The `dim` block of `is_separable` and `has_symmetric_extension`.**  A list `[a, b]` is taken as it is; an integer
+`d ≥ 1` that divides the side `N` means `[d, N/d]` and one that does not is rejected (`ValueError`); an omitted `dim`
+means `d = round √N`, so `N = d²` gives `[d, d]` (and `N = 6` gives `[2, 3]`, `N = 8` is rejected). -/
+theorem sep_dim_forms (N a b d : Nat) :
+    sepDecodeDim N (.pair a b) = .ok (a, b) ∧
+    (0 < d → d ∣ N → sepDecodeDim N (.scalar d) = .ok (d, N / d)) ∧
+    (0 < d → ¬ d ∣ N → sepDecodeDim N (.scalar d) = .error .InvalidDim) ∧
+    (0 < d → sepDecodeDim (d * d) .omitted = .ok (d, d)) ∧
+    sepDecodeDim 6 .omitted = .ok (2, 3) ∧ sepDecodeDim 8 .omitted = .error .InvalidDim := by
+  refine ⟨rfl, fun hd hdiv => ?_, fun hd hdiv => ?_, fun hd => ?_, by decide, by decide⟩
+  · simp [sepDecodeDim, scalarDim, Nat.ne_of_gt hd, Nat.mod_eq_zero_of_dvd hdiv]
+  · have : N % d ≠ 0 := fun h => hdiv (Nat.dvd_of_mod_eq_zero h)
+    simp [sepDecodeDim, scalarDim, Nat.ne_of_gt hd, this]
+  · simp [sepDecodeDim, scalarDim, Toq.C02.roundSqrt_square, Nat.ne_of_gt hd, Nat.mul_div_cancel _ hd]
+
+/-- **On two-qubit and qubit–qutrit states `is_separable` agrees with the PPT test.**  For local dimensions `≥ 2` with
+`dA·dB ≤ 6` the cascade returns the outcome of `is_ppt(state, 2, dim, tol)` — `False` at the PPT statement, `True` at the
+small-dimension statement — whatever all the later quantities are. -/
+theorem cascade_small_dims_is_ppt (dA dB : Nat) (hA : 2 ≤ dA) (hB : 2 ≤ dB) (h6 : dA * dB ≤ 6) (tol : Rat) (q : Quant) :
+    sepCascade dA dB tol q = .verdict (if q.ppt = true then .pptSufficient else .pptReject) q.ppt := by
+  have hmin : min dA dB ≠ 1 := by omega
+  unfold sepCascade stages
+  cases hp : q.ppt <;> simp [firstSome, stDim1, stPpt, stSmall, hmin, hp, h6]
+
+/-- **A state that fails the PPT test is never declared separable**: for local dimensions `≥ 2` and a negative outcome
+of `is_ppt` the cascade answers `False` at the PPT statement, whatever the other quantities are. -/
+theorem cascade_npt_rejected (dA dB : Nat) (hA : 2 ≤ dA) (hB : 2 ≤ dB) (tol : Rat) (q : Quant) (h : q.ppt = false) :
+    sepCascade dA dB tol q = .verdict .pptReject false := by
+  have hmin : min dA dB ≠ 1 := by omega
+  unfold sepCascade stages
+  simp [firstSome, stDim1, stPpt, hmin, h]
+
+/-- **Only necessary criteria answer "entangled".**  If the cascade returns `False` at statement `b`, then `b` is the PPT
+test (and `is_ppt` was negative), the realignment test (and `‖R(ρ)‖₁ > 1 + tol`), the Zhang test (and its inequality
+fires), the rank-4 determinant test on `3 ⊗ 3` (and `|F| ≥ max(tol², ε^{3/4})`), or one of the qutrit maps on `3 ⊗ 3`
+(and some `(id ⊗ Φ)(ρ)` was found not PSD).  No sufficient-criterion statement can produce `False`. -/
+theorem cascade_false_only_by_necessary_criteria (dA dB : Nat) (tol : Rat) (q : Quant) (b : Branch)
+    (h : sepCascade dA dB tol q = .verdict b false) :
+    (b = .pptReject ∧ q.ppt = false) ∨
+    (b = .realignment ∧ 1 + tol < q.realignNorm) ∨
+    (b = .zhang ∧ gtAddSqrt q.zhangNorm tol (zhangRadicand q) = true) ∨
+    (b = .rank4 ∧ q.rank = 4 ∧ dA = 3 ∧ dB = 3 ∧ max (tol * tol) eps34 ≤ q.absF) ∨
+    (b = .haMaps ∧ dA = 3 ∧ dB = 3 ∧ ∃ x ∈ q.haPsd, x = false) := by
+  unfold sepCascade at h
+  cases hf : firstSome (stages dA dB tol q) with
+  | none => rw [hf] at h; cases h
+  | some r =>
+    obtain ⟨b', v⟩ := r
+    rw [hf] at h
+    simp only [Out.verdict.injEq] at h
+    obtain ⟨rfl, rfl⟩ := h
+    have hm := firstSome_mem hf
+    rcases stage_false hm with h1 | h2 | h3 | h4 | h5 | h6
+    · exact Or.inl h1
+    · -- the small-dimension statement returns `is_ppt_state`, which is `True` there: the PPT statement comes first
+      exfalso
+      obtain ⟨rfl, hp⟩ := h2
+      unfold stages at hf
+      by_cases hd : min dA dB = 1
+      · simp [firstSome, stDim1, hd] at hf
+      · simp [firstSome, stDim1, stPpt, hd, hp] at hf
+    · exact Or.inr (Or.inl h3)
+    · exact Or.inr (Or.inr (Or.inl h4))
+    · exact Or.inr (Or.inr (Or.inr (Or.inl h5)))
+    · exact Or.inr (Or.inr (Or.inr (Or.inr h6)))
+
+/-- **No mixture of product states is declared entangled by the early statements.**  Let `ρ` be a mixture of product
+states of trace one (any local index types), and let the quantities handed to the cascade be the exact ones:
+`realignNorm = ‖R(ρ)‖₁`, `zhangNorm = ‖R(ρ − ρ_A ⊗ ρ_B)‖₁`, `purA = tr ρ_A²`, `purB = tr ρ_B²`, a positive PPT outcome
+(Peres: `peres`), PSD outcomes for the qutrit maps (`positive_map_criterion`; their positivity is cited), and the rank-4
+determinant test not applicable.  Then for every tolerance `tol ≥ 0` the cascade does not answer `False`: it answers
+`True` at one of its statements or falls through to the late stage (the known finding). -/
+theorem separable_never_rejected_early {m n : Type*} [Fintype m] [Fintype n] [DecidableEq n]
+    (ρ : Matrix (m × n) (m × n) ℂ) (hsep : IsSepMix ρ) (htr : ρ.trace = 1) (dA dB : Nat) (tol : Rat) (htol : 0 ≤ tol)
+    (q : Quant) (hppt : q.ppt = true)
+    (hR : (q.realignNorm : ℝ) = nucNorm (realignM ρ))
+    (hZ : (q.zhangNorm : ℝ) = nucNorm (realignM (ρ - ptrB ρ ⊗ₖ ptrA ρ)))
+    (hpA : (q.purA : ℝ) = (ptrB ρ * ptrB ρ).trace.re) (hpB : (q.purB : ℝ) = (ptrA ρ * ptrA ρ).trace.re)
+    (hrank : ¬ (q.rank = 4 ∧ dA = 3 ∧ dB = 3)) (hha : ∀ x ∈ q.haPsd, x = true) (b : Branch) :
+    sepCascade dA dB tol q ≠ .verdict b false := by
+  intro h
+  have htol' : (0 : ℝ) ≤ (tol : ℝ) := by exact_mod_cast htol
+  obtain ⟨hn1, hn2⟩ := realignment_zhang_norm ρ hsep
+  obtain ⟨hz1, hz2, _⟩ := zhang_criterion ρ hsep htr
+  rcases cascade_false_only_by_necessary_criteria dA dB tol q b h with h1 | h1 | h1 | h1 | h1
+  · rw [hppt] at h1; exact absurd h1.2 (by simp)
+  · have : ((1 + tol : Rat) : ℝ) < (q.realignNorm : ℝ) := by exact_mod_cast h1.2
+    rw [hR] at this
+    have h2 : ρ.trace.re = 1 := by rw [htr]; rfl
+    push_cast at this
+    linarith
+  · have hr0 : 0 ≤ zhangRadicand q := mul_nonneg (le_max_left _ _) (le_max_left _ _)
+    have hlt := (gtAddSqrt_iff _ _ _ hr0).mp h1.2
+    have e : ((zhangRadicand q : Rat) : ℝ)
+        = (1 - (ptrB ρ * ptrB ρ).trace.re) * (1 - (ptrA ρ * ptrA ρ).trace.re) := by
+      unfold zhangRadicand
+      push_cast
+      rw [hpA, hpB, max_eq_right hz1, max_eq_right hz2]
+    rw [e, hZ] at hlt
+    have := hn2 htr
+    linarith
+  · exact hrank ⟨h1.2.1, h1.2.2.1, h1.2.2.2.1⟩
+  · obtain ⟨_, _, _, x, hx, hx2⟩ := h1
+    rw [hha x hx] at hx2; exact absurd hx2 (by simp)
+
+/-- **The spectrum test uses the eigenvalues of Johnston's theorem.**  With `λ_k` the `k`-th largest eigenvalue
+(`λ_k = lam[k − 1]`), `n = max_dim ≥ 2` and either party the qubit, the statement
+`(lam[0] − lam[2n−2])² ≤ 4·lam[2n−3]·lam[2n−1] + tol²` fires iff `(λ₁ − λ_{2n−1})² ≤ 4 λ_{2n−2} λ_{2n} + tol²`; for
+`tol = 0` and a sorted non-negative spectrum this is Johnston's condition `λ₁ − λ_{2n−1} ≤ 2 √(λ_{2n−2} λ_{2n})`. -/
+theorem johnston_spectrum_indices (dA dB n : Nat) (hn : 2 ≤ n) (hd : (dA = 2 ∧ dB = n) ∨ (dA = n ∧ dB = 2)) (tol : Rat)
+    (q : Quant) :
+    (stSpectrum dA dB tol q = some (.spectrum2n, true) ↔
+      (ev1 q 1 - ev1 q (2 * n - 1)) ^ 2 ≤ 4 * ev1 q (2 * n - 2) * ev1 q (2 * n) + (tol : ℝ) ^ 2) ∧
+    (ev1 q (2 * n - 1) ≤ ev1 q 1 → 0 ≤ ev1 q (2 * n - 2) → 0 ≤ ev1 q (2 * n) →
+      (stSpectrum dA dB 0 q = some (.spectrum2n, true) ↔
+        ev1 q 1 - ev1 q (2 * n - 1) ≤ 2 * √(ev1 q (2 * n - 2) * ev1 q (2 * n)))) := by
+  refine ⟨stSpectrum_iff dA dB n hn hd tol q, fun h1 h2 h3 => ?_⟩
+  rw [stSpectrum_iff dA dB n hn hd 0 q, ← sq_le_four_mul_iff _ _ _ _ h1 h2 h3]
+  simp
+
+/-- **The rank-one-perturbation test compares the second largest with the smallest eigenvalue**:
+`lam[1] − lam[prod_dim − 1] < tol²` is `λ₂ − λ_D < tol²`, `D = dA·dB`. -/
+theorem rank_one_perturbation_indices (dA dB : Nat) (tol : Rat) (q : Quant) :
+    stRank1 dA dB tol q = some (.rank1, true) ↔ ev1 q 2 - ev1 q (dA * dB) < (tol : ℝ) ^ 2 := by
+  unfold stRank1 ev1
+  constructor
+  · intro h
+    split at h
+    · next hc =>
+      have := (Rat.cast_lt (K := ℝ)).mpr hc
+      push_cast at this
+      rw [pow_two]; exact this
+    · simp at h
+  · intro h
+    have hc : lamAt q 1 - lamAt q (dA * dB - 1) < tol * tol := by
+      rw [pow_two] at h
+      have : ((lamAt q 1 - lamAt q (dA * dB - 1) : Rat) : ℝ) < ((tol * tol : Rat) : ℝ) := by
+        push_cast; exact h
+      exact (Rat.cast_lt (K := ℝ)).mp this
+    rw [if_pos hc]
+
+/-- **The square-root-free form of the Zhang test is the test of the code**: for a radicand `r ≥ 0`
+(`max(0, ·)·max(0, ·)` always is), `x > tol + √r` iff `x − tol > 0` and `(x − tol)² > r`. -/
+theorem zhang_test_arithmetic (tol : Rat) (q : Quant) :
+    0 ≤ zhangRadicand q ∧
+    (stZhang tol q = some (.zhang, false) ↔ (tol : ℝ) + √((zhangRadicand q : Rat) : ℝ) < (q.zhangNorm : ℝ)) := by
+  have hr0 : 0 ≤ zhangRadicand q := mul_nonneg (le_max_left _ _) (le_max_left _ _)
+  refine ⟨hr0, ?_⟩
+  rw [← gtAddSqrt_iff _ _ _ hr0]
+  unfold stZhang
+  constructor
+  · intro h
+    split at h
+    · next hc => exact hc
+    · simp at h
+  · intro h; rw [if_pos h]
+
+/-- **The blocks of the `2 ⊗ n` tests belong to the qubit, whichever party it is.**  With the qubit first,
+`A = state[:n, :n]`, `B = state[:n, n:2n]`, `C = state[n:2n, n:2n]` are the blocks `⟨i|_qubit ρ |j⟩_qubit` for
+`(i, j) = (0,0), (0,1), (1,1)`; with the qubit second the code first exchanges the parties (`swap(state, [1, 2], dim)`
+when `dim[0] > 2`) and the same slices are again the blocks of the qubit. -/
+theorem qubit_blocks_spec {n : Nat} (i j : Fin 2) :
+    (∀ Y : EMat (2 * n) (2 * n), (blk Y i j).toM = blockB (unflat Y.toM) i j) ∧
+    (∀ X : EMat (n * 2) (n * 2), (blk (qubitFirst X) i j).toM = blockA (unflat X.toM) i j) :=
+  ⟨fun Y => blk_toM Y i j, fun X => blk_qubitFirst_toM X i j⟩
+
+/-- **The block matrix of the homothetic-image test is `ρ − (1/6)·(1 ⊗ ρ_B)`**: for a Hermitian `ρ` on `ℂ² ⊗ ℂⁿ`,
+`[[5/6·A − C/6, B], [Bᴴ, 5/6·C − A/6]] = ρ − (1/6)(1₂ ⊗ tr_A ρ)` — Hildebrand's homothety of the cone with centre
+`1 ⊗ ρ_B`. -/
+theorem homothetic_image_spec {n : Nat} (Y : EMat (2 * n) (2 * n)) (hY : Y.toM.IsHermitian) :
+    unflat (homothetic Y).toM
+      = unflat Y.toM - ((1 / 6 : ℝ) : ℂ) • ((1 : Matrix (Fin 2) (Fin 2) ℂ) ⊗ₖ ptrA (unflat Y.toM)) :=
+  homothetic_toM Y hY
+
+/-- **The Lemma-1 test is at least as strict as Johnston's Lemma 1.**  The code compares the FROBENIUS norm `‖B‖_F²` with
+`λ_min(A)·λ_min(C) + tol²`; the lemma needs the operator norm, and `‖B x‖² ≤ ‖B‖_F² ‖x‖²` for every vector `x`. -/
+theorem lemma1_frobenius_dominates {ι κ : Type*} [Fintype ι] [Fintype κ] (B : Matrix ι κ ℂ) (x : κ → ℂ) :
+    nsq (B *ᵥ x) ≤ frobSq B * nsq x :=
+  nsq_mulVec_le_frobSq B x
+
+/-- **The qutrit maps of the cascade lie on the boundary of the Cho–Kye–Lee positivity region.**  For every `t ≥ 0`,
+`a = (1−t)²/(1−t+t²)`, `b = t²/(1−t+t²)`, `c = 1/(1−t+t²)` satisfy `0 ≤ a ≤ 1`, `a + b + c = 2`, `bc = (1 − a)²`; the loop
+of the code builds the maps for the 19 values `t = 0, 10, 1/10, 5, 1/5, …, 10/9, 9/10`, all `≥ 0`. -/
+theorem ha_parameters_in_region :
+    (∀ t : ℝ, 0 ≤ t →
+      let D := 1 - t + t ^ 2
+      0 < D ∧ 0 ≤ (1 - t) ^ 2 / D ∧ (1 - t) ^ 2 / D ≤ 1 ∧ (1 - t) ^ 2 / D + t ^ 2 / D + 1 / D = 2 ∧
+        t ^ 2 / D * (1 / D) = (1 - (1 - t) ^ 2 / D) ^ 2) ∧
+    haTs.length = 19 ∧ (∀ t ∈ haTs, 0 ≤ t) ∧ haABC 0 = (1, 0, 1) ∧ haABC (1 / 2) = (1 / 3, 1 / 3, 4 / 3) := by
+  refine ⟨fun t ht => ha_abc_region t ht, by decide, by decide +kernel, by decide +kernel, by decide +kernel⟩
+
+/-- **`has_symmetric_extension` accepts every state that is PSD and PPT whenever it does not reach the SDP**: at
+`level = 1`, or for `N ≤ 6` with the PPT option, the verdict is `is_ppt(rho) and is_positive_semidefinite(rho)` (with the
+option) resp. `is_positive_semidefinite(rho)` (without); both hold for every mixture of product states (`peres`). -/
+theorem symext_shortcuts_accept_separable (N dA dB level : Nat) (ppt : Bool) (tol : Rat) (q : SymQuant)
+    (hpsd : q.psd = true) (hppt : q.ppt = true) (hbr : level = 1 ∨ (N ≤ 6 ∧ ppt = true)) :
+    (symExtCascade N dA dB level ppt tol q).2 = true ∧
+    (symExtCascade N dA dB level ppt tol q).1 = (if ppt = true then .pptShortcut else .level1NoPpt) := by
+  unfold symExtCascade
+  rw [if_pos hbr]
+  cases ppt <;> simp [hpsd, hppt]
+
+/-- **The two-qubit analytic test** `tr ρ_B² ≥ tr ρ² − 4√(max(det ρ, 0)) − tol` is decided exactly by its
+square-root-free form, and it is reached exactly for `level = 2`, no PPT option, `dim = [2, 2]`. -/
+theorem symext_analytic_arithmetic (N : Nat) (tol : Rat) (q : SymQuant) :
+    symExtCascade N 2 2 2 false tol q = (.analytic2qubit, geSubSqrt q.purB q.purRho q.detRho tol) ∧
+    (geSubSqrt q.purB q.purRho q.detRho tol = true ↔
+      (q.purRho : ℝ) - 4 * √(max (q.detRho : ℝ) 0) - (tol : ℝ) ≤ (q.purB : ℝ)) :=
+  ⟨by simp [symExtCascade], geSubSqrt_iff _ _ _ _⟩
+
+/-- **The SDP statement of `has_symmetric_extension` answers `True` iff the hierarchy value is below `1 − tol`.**  (The
+program it evaluates, `symmetric_extension_hierarchy([rho])`, is a state-discrimination program with a single state, whose
+optimum is `tr ρ = 1`: hence the known finding `c15-symext-sdp-constant-false`.) -/
+theorem symext_sdp_branch_constant (val tol : Rat) (htol : 0 ≤ tol) :
+    (sdpVerdict val tol = true ↔ val < 1 - tol) ∧ (1 - tol ≤ val → sdpVerdict val tol = false) := by
+  have key : sdpVerdict val tol = true ↔ val < 1 - tol := by
+    unfold sdpVerdict
+    simp only [Bool.not_eq_true', decide_eq_false_iff_not, not_le]
+    by_cases hv : val ≤ 1
+    · rw [min_eq_left hv]
+      have : ¬ (1 - val < 0) := by linarith
+      rw [if_neg this]
+      constructor <;> intro h <;> linarith
+    · have hv' : 1 < val := not_le.mp hv
+      rw [min_eq_right hv'.le]
+      simp only [sub_self, lt_self_iff_false, if_false]
+      constructor
+      · intro h; linarith
+      · intro h; linarith
+  refine ⟨key, fun h => ?_⟩
+  cases hs : sdpVerdict val tol
+  · rfl
+  · exact absurd (key.mp hs) (not_lt.mpr h)
+
+/-- **Every mixture of product states has a symmetric PPT extension of every order.**  For `ρ = Σ_i w_i (a_i a_iᴴ) ⊗ (b_i b_iᴴ)`
+and every `k ≥ 0` there is an operator `σ` on the first party and `k + 1` copies of the second party (a basis vector of the
+copies is a function `Fin (k+1) → n`) that (1) reduces to `ρ` when the copies `1 … k` are traced out, (2) is invariant under
+every permutation of the copies applied on the left or on the right (it is supported on the symmetric subspace), (3) after
+the partial transpose of ANY set `S` of copies is still a mixture of product states across the cut `A | copies`, hence (4)
+positive semidefinite with positive semidefinite partial transposes with respect to `S` and to `A ∪ S`, for every `S`.
+These are the constraints of a symmetric-extension search with or without the PPT option, so a correct
+`has_symmetric_extension` accepts every separable state at every level. -/
+theorem separable_has_symmetric_extensions {m n : Type*} [Finite m] [Fintype n] (k : Nat)
+    (ρ : Matrix (m × n) (m × n) ℂ) (h : IsSepMix ρ) :
+    ∃ σ : Matrix (m × (Fin (k + 1) → n)) (m × (Fin (k + 1) → n)) ℂ,
+      reduce1 σ = ρ ∧ IsBoseSym σ ∧
+      ∀ S : Finset (Fin (k + 1)), IsSepMix (ptCopies S σ) ∧ (ptCopies S σ).PosSemidef ∧
+        (ptAM (ptCopies S σ)).PosSemidef ∧ ptCopies ∅ σ = σ := by
+  obtain ⟨σ, h1, h2, h3⟩ := h.exists_symmetric_extension k
+  exact ⟨σ, h1, h2, fun S => ⟨h3 S, (h3 S).posSemidef, (h3 S).ptAM_posSemidef, ptCopies_empty σ⟩⟩
+
+/-- **The statement `if min_dim == 1: return True` is sound.**  When one party has dimension one, every positive
+semidefinite operator is a mixture of product states (whichever party it is), and the cascade answers `True` there. -/
+theorem dim1_statement_sound {m n : Type*} [Unique m] [Finite n] :
+    (∀ ρ : Matrix (m × n) (m × n) ℂ, ρ.PosSemidef → IsSepMix ρ) ∧
+    (∀ ρ : Matrix (n × m) (n × m) ℂ, ρ.PosSemidef → IsSepMix ρ) ∧
+    (∀ (d : Nat) (tol : Rat) (q : Quant), sepCascade 1 d tol q = .verdict .dim1 true ∨ d = 0) := by
+  refine ⟨fun ρ h => isSepMix_of_unique_left ρ h, fun ρ h => ?_, fun d tol q => ?_⟩
+  · have h2 : (swapM ρ).PosSemidef := by
+      have : swapM ρ = ρ.submatrix (Equiv.prodComm m n) (Equiv.prodComm m n) := rfl
+      rw [this]; exact h.submatrix _
+    have := (isSepMix_of_unique_left (swapM ρ) h2).swap
+    exact this
+  · rcases Nat.eq_zero_or_pos d with h0 | hpos
+    · exact Or.inr h0
+    · left
+      have : min 1 d = 1 := by omega
+      simp [sepCascade, stages, firstSome, stDim1, this]
+
+/-- **The decision logic treats the two parties alike.**  Exchanging the local dimensions and the two marginal purities
+(all other quantities of the cascade are the same numbers for `ρ` and for `ρ` with the parties exchanged) does not change
+the statement that returns nor the verdict: a dependence of the verdict on the order of the parties can only come from the
+quantities themselves (the qutrit maps and the Breuer–Hall maps act on one party). -/
+theorem cascade_exchange_symmetric (dA dB : Nat) (tol : Rat) (q : Quant) :
+    sepCascade dB dA tol { q with purA := q.purB, purB := q.purA } = sepCascade dA dB tol q := by
+  have hz : zhangRadicand { q with purA := q.purB, purB := q.purA } = zhangRadicand q := by
+    unfold zhangRadicand; exact mul_comm _ _
+  have h1 : stDim1 dB dA = stDim1 dA dB := by unfold stDim1; rw [Nat.min_comm]
+  have h3 : stSmall dB dA { q with purA := q.purB, purB := q.purA } = stSmall dA dB q := by
+    unfold stSmall; rw [Nat.min_comm, Nat.mul_comm]
+  have h5 : stZhang tol { q with purA := q.purB, purB := q.purA } = stZhang tol q := by
+    unfold stZhang; rw [hz]
+  have h6 : stSpectrum dB dA tol { q with purA := q.purB, purB := q.purA } = stSpectrum dA dB tol q := by
+    unfold stSpectrum; rw [Nat.min_comm, Nat.max_comm]; rfl
+  have h7 : stHankel dB dA { q with purA := q.purB, purB := q.purA } = stHankel dA dB q := by
+    unfold stHankel; rw [Nat.min_comm]
+  have h8 : stHomothetic dB dA { q with purA := q.purB, purB := q.purA } = stHomothetic dA dB q := by
+    unfold stHomothetic; rw [Nat.min_comm]
+  have h9 : stLemma1 dB dA tol { q with purA := q.purB, purB := q.purA } = stLemma1 dA dB tol q := by
+    unfold stLemma1; rw [Nat.min_comm]
+  have h10 : stRank4 dB dA tol { q with purA := q.purB, purB := q.purA } = stRank4 dA dB tol q := by
+    unfold stRank4; rw [Nat.min_comm, Nat.max_comm]
+  have h12 : stRank1 dB dA tol { q with purA := q.purB, purB := q.purA } = stRank1 dA dB tol q := by
+    unfold stRank1; rw [Nat.mul_comm]; rfl
+  have h14 : stHa dB dA { q with purA := q.purB, purB := q.purA } = stHa dA dB q := by
+    unfold stHa
+    by_cases hA : dA = 3 <;> by_cases hB : dB = 3 <;> simp [hA, hB]
+  unfold sepCascade stages
+  rw [h1, h3, h5, h6, h7, h8, h9, h10, h12, h14]
+  rfl
+
+/-- **The float constants of the code are the exact rationals of the model**: `√ε = 2⁻²⁶` (default tolerance of `is_ppt`) and
+`ε^{3/4} = 2⁻³⁹` (floor of the rank-4 determinant test), for `ε = 2⁻⁵²`. -/
+theorem float_constants :
+    sqrtEps * sqrtEps = 1 / 2 ^ 52 ∧ eps34 * eps34 * eps34 * eps34 = (1 / 2 ^ 52) * (1 / 2 ^ 52) * (1 / 2 ^ 52) ∧
+    0 < sqrtEps ∧ 0 < eps34 := by
+  refine ⟨by norm_num [sqrtEps], by norm_num [eps34], by norm_num [sqrtEps], by norm_num [eps34]⟩
+
+/-! ### Examples for the decision logic: the hypotheses are satisfiable, the branches are reachable -/
+
+section Examples3
+
+/-- quantities of a `2 ⊗ 4` state with the flat spectrum `1/8`: PPT, realignment and Zhang silent, spectrum test fires -/
+private def qFlat : Quant :=
+  { psd := true, rank := 8, ppt := true, realignNorm := 1 / 2, zhangNorm := 0, purA := 1 / 2, purB := 1 / 4,
+    lam := List.replicate 8 (1 / 8), hankelRank := 0, homPsd := true, homPpt := true, normB2 := 0, minA := 1 / 8,
+    minC := 1 / 8, absF := 0, ball := true, osr := 1, haPsd := [] }
+
+example : sepCascade 2 4 (1 / 100000000) qFlat = .verdict .spectrum2n true := by decide +kernel
+example : sepCascade 4 2 (1 / 100000000) qFlat = .verdict .spectrum2n true := by decide +kernel
+/-- the same quantities with a spectrum `(1/2, 1/2, 0, …)`: spectrum, Hankel (rank 2), homothetic tests silent, Lemma 1 fires -/
+example : sepCascade 2 4 (1 / 100000000)
+    { qFlat with lam := [1 / 2, 1 / 2, 0, 0, 0, 0, 0, 0], hankelRank := 2, homPsd := false } = .verdict .lemma12n true := by
+  decide +kernel
+/-- on `3 ⊗ 3` with all early tests silent and one qutrit map not PSD: `False` at the Ha–Kye statement -/
+example : sepCascade 3 3 (1 / 100000000)
+    { qFlat with lam := [1 / 2, 1 / 2, 0, 0, 0, 0, 0, 0, 0], ball := false, osr := 3, haPsd := [true, false] }
+      = .verdict .haMaps false := by decide +kernel
+/-- nothing fires on `4 ⊗ 4`: the late stage -/
+example : sepCascade 4 4 (1 / 100000000)
+    { qFlat with lam := [1 / 2, 1 / 2] ++ List.replicate 14 0, ball := false, osr := 3 } = .late := by decide +kernel
+example : isSeparableModel 8 (.scalar 2) (1 / 100000000) qFlat = .ok (.verdict .spectrum2n true) := by decide +kernel
+example : isSeparableModel 8 .omitted (1 / 100000000) qFlat = .error .InvalidDim := by decide +kernel
+example : isSeparableModel 8 (.scalar 2) (1 / 100000000) { qFlat with psd := false } = .error .NotPSD := by decide +kernel
+example : hasSymExtModel 9 2 .omitted true (1 / 10000) ⟨true, true, 0, 0, 0, 1⟩ = .ok (.sdp, false) := by decide +kernel
+example : hasSymExtModel 4 2 (.pair 2 2) false (1 / 10000) ⟨true, true, 1 / 2, 1 / 4, 1 / 256, 1⟩
+    = .ok (.analytic2qubit, true) := by decide +kernel
+
+end Examples3
 
 end Toq.C15
